@@ -669,7 +669,9 @@ def exit_directions(draw, vol, vertex):
         elif free == "z":
             tgt[2] = -dz * draw(floats(0.0, 1.0))
     d = [tgt[i] - vertex[i] for i in range(3)]
-    if max(abs(c) for c in d) == 0.0:
+    if max(abs(c) for c in d) < 1e-3 * vol_size(vol):
+        # the target (nearly) coincides with a boundary vertex: no direction is defined
+        # (a vector of length 1e-196 cannot even be normalised: its square underflows)
         d = [0.3, 0.4, -0.5]
     if draw(st.booleans()):
         d = [-c for c in d]
